@@ -42,12 +42,13 @@ def column_part(chk, quick, rnd):
     """column level: Col.tla resolves references by INDEX; the alias pools contain other tables' bare names (a, b), so the
     rendered qualifiers collide with bare names wherever the naming layer allows it"""
     from . import c02
-    r = chk.tlc("Col", c02.cfg(chk, "colmc", TAliases={"x", "b", "a"}, SAliases={"y", "b", "a"}, MaxItems=1),
+    r = chk.tlc("Col", c02.cfg(chk, "colmc", TAliases={"x", "b", "a", "zt"}, SAliases={"y", "b", "a"}, MaxItems=1),
                 "O1 column level: resolution by name = by index under adversarial alias pools", workers=16, timeout=6000)
     if r.violated:
         raise core.MachineryError("Col.tla intended mechanism violates %s" % r.violated)
-    g = chk.tlc("Col", c02.cfg(chk, "colsim", Emit=True, MaxRels=3, MaxItems=2, MaxRefs=2, TAliases={"x", "b", "a"}, SAliases={"y", "b", "a"},
-                               WithUnion=True, invariants=["EmitCase"]),
+    # (zt: the bare name of the table a scalar subquery of the select list reads)
+    g = chk.tlc("Col", c02.cfg(chk, "colsim", Emit=True, MaxRels=3, MaxItems=2, MaxRefs=2, TAliases={"x", "b", "a", "zt"}, SAliases={"y", "b", "a"},
+                               WithUnion=True, WithForeign=True, invariants=["EmitCase"]),
                 "generate: simulated column-level programs with adversarial aliases", workers=1, coverage=False,
                 simulate="num=%d" % (4000 if quick else 80000), depth=12, seed=chk.seed, timeout=6000)
     seen, cases = set(), []
@@ -58,6 +59,7 @@ def column_part(chk, quick, rnd):
             cases.append(c)
     jobs = []
     QUOTED = {"x": '"Xa"', "y": '"Select"', "a": '"A b"', "b": '"Bb"'}
+    MIXED = {"x": "Xa", "y": "yB", "a": "Aq", "b": "bQ"}
     for c in cases:
         p = c["prog"]
         base = {"as_kw": rnd.random() < 0.5}
@@ -65,6 +67,9 @@ def column_part(chk, quick, rnd):
         # the same program under other spellings of its statement-local names: quoted mixed-case aliases; derived tables written
         # as CTEs read without an alias; one more table joined inside each derived table under a name the outer scope uses
         variants.append(dict(base, spell=QUOTED, cte=rnd.random() < 0.5))
+        variants.append(dict(base, spell=rnd.choice([MIXED, QUOTED, None]), cte="aliased", tablesample=rnd.random() < 0.5))
+        if any(r["k"] == "tbl" and r["al"] != "none" for r in p["rels"]):
+            variants.append(dict(base, tablesample=True))
         if any(r["k"] == "sub" for r in p["rels"]) or (p["branch2"] and p["branch2"][0]["al"] != "none"):
             variants.append(dict(base, cte=True, spell=rnd.choice([None, QUOTED])))
             outer = [r["al"] for r in p["rels"] if r["al"] != "none"] + [r["n"] for r in p["rels"] if r["k"] == "tbl" and r["al"] == "none"]
